@@ -16,7 +16,8 @@ MC_Defects == {Scn.defects[i] : i \in 1..Len(Scn.defects)}
 \* pass 1 (simulation): stop at the first quiescent state and write its canonical results
 DumpExpected ==
   ~Quiescent \/ (/\ IOSerialize(CanonResults, IOEnv.EXPECTED, FALSE)
-                  /\ JsonSerialize(IOEnv.EXPECTED \o ".json", [outcome |-> outcome])
+                  /\ JsonSerialize(IOEnv.EXPECTED \o ".json",
+                                   [outcome |-> outcome, results |-> SetToSeq(CanonResults)])
                   /\ FALSE)
 
 \* pass 2 (exhaustive): every quiescent state has the same canonical results
